@@ -10,6 +10,8 @@ VERUS = os.environ.get('VERIF_VERUS', 'verus')
 # messages that are *verification* failures (an obligation was generated and not discharged)
 VERIF_MSGS = [
     ('postcondition not satisfied', 'postcondition'),
+    ('unable to prove post-condition of closure', 'closure-postcondition'),
+    ('unable to prove pre-condition', 'precondition'),
     ('precondition not satisfied', 'precondition'),
     ('possible arithmetic underflow/overflow', 'arith-overflow'),
     ('possible division by zero', 'div-by-zero'),
